@@ -426,18 +426,9 @@ func conditionalCleanup(s *an.PathState, open an.Event) bool {
 		if !(e.Kind == "call" && e.Deferred) {
 			continue
 		}
-		ci, ok := e.In.(ssa.CallInstruction)
+		cf, fv, ok := deferredBody(s, e)
 		if !ok {
 			continue
-		}
-		mc, ok := ci.Common().Value.(*ssa.MakeClosure)
-		if !ok {
-			continue
-		}
-		cf := mc.Fn.(*ssa.Function)
-		fv := map[string]*an.Term{}
-		for i, b := range mc.Bindings {
-			fv[cf.FreeVars[i].Name()] = s.T(b)
 		}
 		// the value returned at this exit
 		_, r := exitKind(s)
